@@ -153,13 +153,13 @@ func (sess *session) newRef(fid Fid) (ref *SFid, err error) {
 	return ref, nil
 }
 
-// Delete reference from the refs table.
+// Delete reference from the refs table (once its lock is held).
 // If remove is true, calls Dirent.Remove.
 // Otherwise, calls Dirent.Clunk.
 func (sess *session) delRef(ctx context.Context, fid Fid,
 	remove bool) error {
 
-	ref1, found := sess.refs.LoadAndDelete(fid)
+	ref1, found := sess.refs.Load(fid)
 	if !found {
 		return ErrUnknownfid
 	}
@@ -167,7 +167,17 @@ func (sess *session) delRef(ctx context.Context, fid Fid,
 
 	ref.Lock()
 	defer ref.Unlock()
-	if ref.Ent == nil {
+	// Unbind the fid only now that no other operation is using the SFid.
+	// Removing it from the table before taking the lock let the client
+	// re-use the fid while operations that had already looked the old
+	// SFid up were still running on it (and let a failed Attach/Walk/Create
+	// that rolls its fid back delete the re-used fid instead).
+	// The fid no longer names this SFid if another Clunk/Remove got here
+	// first or if the reservation we waited for was rolled back.
+	if !sess.refs.CompareAndDelete(fid, ref) {
+		return ErrUnknownfid
+	}
+	if ref.Ent == nil { // an auth fid: no entry to release
 		return nil
 	}
 
